@@ -2,10 +2,20 @@
 use crate::{Acc, Args};
 use serde_json::Value;
 
-pub fn run(name: &str, _a: &Args, acc: &mut Acc) {
-    acc.inconclusive.push(format!("unknown lane {name}"));
+pub mod c04;
+
+pub fn run(name: &str, a: &Args, acc: &mut Acc) {
+    match name {
+        "c04" => c04::run(a, acc),
+        _ => acc.inconclusive.push(format!("unknown lane {name}")),
+    }
 }
 
-pub fn replay(_v: &Value) -> Result<Vec<(String, String)>, String> {
-    Err("unknown engine".into())
+pub fn replay(v: &Value) -> Result<Vec<(String, String)>, String> {
+    let lane = v.get("lane").and_then(|x| x.as_str()).unwrap_or("");
+    let case = v.get("case").cloned().unwrap_or(Value::Null);
+    match lane {
+        "c04" => c04::replay(&case),
+        _ => Err(format!("unknown lane {lane}")),
+    }
 }
